@@ -106,6 +106,8 @@ impl Method for PhoneticMethod {
                 '.' | '?' | '!' | ',' | ':' | ';' | '-' | '_' | ')' | '}' | ']' | '\'' | '"'
             ) {
                 *sel = selection.into();
+                // The user sees this selection, so a commit has to be compared with it.
+                self.prev_selection = *sel;
             }
         }
 
